@@ -7,7 +7,9 @@ package util
 //   TestVerifC19Minify  egostrings.JSONMinify(text)            -> {in, out}
 //   TestVerifC19Write   util.WriteJSON -> WriteMaybeCompressed behind a real
 //                       net/http server, fetched by a client that does not
-//                       decode anything by itself -> {id, hdr, kind, utf8, text}
+//                       decode anything by itself -> {id, hdr, kind, utf8, text};
+//                       first one request at a time, then (cases with g = "conc")
+//                       many overlapping requests with yielding response writers
 
 import (
 	"bytes"
@@ -15,9 +17,14 @@ import (
 	"encoding/json"
 	"fmt"
 	"io"
+	"math/rand"
 	"net/http"
 	"net/http/httptest"
+	"runtime"
+	"sort"
 	"strconv"
+	"sync"
+	"sync/atomic"
 	"testing"
 	"unicode/utf8"
 
@@ -80,6 +87,7 @@ type vkVal struct {
 }
 
 type vkCase struct {
+	G   string `json:"g"`
 	V   vkVal  `json:"v"`
 	AE  string `json:"ae"`
 	Thr int    `json:"thr"`
@@ -120,6 +128,61 @@ func vkGoValue(v vkVal) any {
 	panic("unknown value tag " + v.T)
 }
 
+// vkYieldWriter is the ResponseWriter the handler sees in the concurrent stage:
+// it gives the processor away before every WriteHeader and Write, so that other
+// handlers run between the steps of this one.
+type vkYieldWriter struct {
+	http.ResponseWriter
+	yields int
+}
+
+func (y *vkYieldWriter) yield() {
+	for i := 0; i < y.yields; i++ {
+		runtime.Gosched()
+	}
+}
+
+func (y *vkYieldWriter) WriteHeader(status int) {
+	y.yield()
+	y.ResponseWriter.WriteHeader(status)
+}
+
+func (y *vkYieldWriter) Write(b []byte) (int, error) {
+	y.yield()
+	return y.ResponseWriter.Write(b)
+}
+
+// vkProjectResponse: what the wire bytes are (complete gzip stream, broken gzip
+// stream, or not gzip) and the text they carry, as a log record.
+func vkProjectResponse(id int, resp *http.Response, wire []byte, extra map[string]any) map[string]any {
+	kind, text := "plain", wire
+	if len(wire) >= 2 && wire[0] == 0x1f && wire[1] == 0x8b {
+		kind, text = "badgzip", nil // gzip magic, but not (yet shown to be) a complete gzip stream
+		if zr, err := gzip.NewReader(bytes.NewReader(wire)); err == nil {
+			if plain, err := io.ReadAll(zr); err == nil {
+				kind, text = "gzip", plain
+			}
+		}
+	}
+	rec := map[string]any{"id": id, "hdr": resp.Header.Get("Content-Encoding"), "kind": kind,
+		"status": resp.StatusCode, "wire": len(wire), "utf8": utf8.Valid(text), "text": []int{}}
+	if utf8.Valid(text) {
+		rec["text"] = vkCodePoints(string(text))
+	}
+	for k, v := range extra {
+		rec[k] = v
+	}
+	return rec
+}
+
+func vkSetThreshold(thr int) {
+	if thr < 0 {
+		settings.SetDefault(defs.ServerCompressionThresholdSetting, "")
+	} else {
+		settings.SetDefault(defs.ServerCompressionThresholdSetting, strconv.Itoa(thr))
+	}
+}
+
 func TestVerifC19Write(t *testing.T) {
 	in, out := vkEnv("VERIF_CASES", ""), vkEnv("VERIF_OUT_B", "")
 	if in == "" || out == "" {
@@ -145,57 +208,108 @@ func TestVerifC19Write(t *testing.T) {
 
 	// the server side: what a handler does (router.Session.Response() fills the
 	// ResponseInfo from util.AcceptsGzip(r) exactly like this)
+	var yields atomic.Int64
 	srv := httptest.NewServer(http.HandlerFunc(func(w http.ResponseWriter, r *http.Request) {
 		id, _ := strconv.Atoi(r.URL.Query().Get("id"))
 		sent := 0
+		if n := int(yields.Load()); n > 0 {
+			w = &vkYieldWriter{ResponseWriter: w, yields: n}
+		}
 		w.Header().Set(defs.ContentTypeHeader, "application/json")
 		WriteJSON(w, ResponseInfo{SessionID: id, AcceptsGzip: AcceptsGzip(r), Length: &sent}, http.StatusOK,
 			vkGoValue(cases[id-1].V))
 	}))
 	defer srv.Close()
 	// the client side: takes the bytes as they are on the wire
-	client := &http.Client{Transport: &http.Transport{DisableCompression: true}}
+	client := &http.Client{Transport: &http.Transport{DisableCompression: true, MaxIdleConnsPerHost: 64}}
 	saved := settings.Get(defs.ServerCompressionThresholdSetting)
 	defer settings.SetDefault(defs.ServerCompressionThresholdSetting, saved)
 
-	nz := 0
-	for i, c := range cases {
-		id := i + 1
-		if c.Thr < 0 {
-			settings.SetDefault(defs.ServerCompressionThresholdSetting, "")
-		} else {
-			settings.SetDefault(defs.ServerCompressionThresholdSetting, strconv.Itoa(c.Thr))
-		}
+	fetch := func(id int) (*http.Response, []byte, error) {
 		req, _ := http.NewRequest(http.MethodGet, srv.URL+"/?id="+strconv.Itoa(id), nil)
-		if c.AE != "" {
-			req.Header.Set("Accept-Encoding", c.AE)
+		if ae := cases[id-1].AE; ae != "" {
+			req.Header.Set("Accept-Encoding", ae)
 		}
 		resp, err := client.Do(req)
 		if err != nil {
-			t.Fatalf("case %d: %v", id, err)
+			return nil, nil, err
 		}
 		wire, err := io.ReadAll(resp.Body)
 		resp.Body.Close()
+		return resp, wire, err
+	}
+
+	// sequential stage
+	nseq, nz := 0, 0
+	conc := map[int][]int{} // threshold -> ids of the concurrent stage
+	for i, c := range cases {
+		id := i + 1
+		if c.G == "conc" {
+			conc[c.Thr] = append(conc[c.Thr], id)
+			continue
+		}
+		vkSetThreshold(c.Thr)
+		resp, wire, err := fetch(id)
 		if err != nil {
-			t.Fatalf("case %d: reading body: %v", id, err)
+			t.Fatalf("case %d: %v", id, err)
 		}
-		// projection: what the wire bytes are (gzip stream or not) and the text they carry
-		kind, text := "plain", wire
-		if len(wire) >= 2 && wire[0] == 0x1f && wire[1] == 0x8b {
-			kind, text = "badgzip", nil // gzip magic, but not (yet shown to be) a complete gzip stream
-			if zr, err := gzip.NewReader(bytes.NewReader(wire)); err == nil {
-				if plain, err := io.ReadAll(zr); err == nil {
-					kind, text = "gzip", plain
-					nz++
-				}
-			}
-		}
-		rec := map[string]any{"id": id, "hdr": resp.Header.Get("Content-Encoding"), "kind": kind,
-			"status": resp.StatusCode, "wire": len(wire), "utf8": utf8.Valid(text), "text": []int{}}
-		if utf8.Valid(text) {
-			rec["text"] = vkCodePoints(string(text))
+		rec := vkProjectResponse(id, resp, wire, nil)
+		if rec["kind"] == "gzip" {
+			nz++
 		}
 		tw.Emit(rec)
+		nseq++
 	}
-	fmt.Printf("VERIF-C19 write cases=%d gzip=%d\n", len(cases), nz)
+
+	// concurrent stage: all requests of one threshold setting in flight together, from
+	// several client goroutines, under different GOMAXPROCS, the handlers yielding at
+	// every WriteHeader/Write
+	workers, rounds := vkEnvInt("VERIF_WORKERS", 8), vkEnvInt("VERIF_ROUNDS", 2)
+	seed := int64(vkEnvInt("VERIF_SEED", 1))
+	nconc := 0
+	var mu sync.Mutex
+	thrs := make([]int, 0, len(conc))
+	for thr := range conc {
+		thrs = append(thrs, thr)
+	}
+	sort.Ints(thrs)
+	for _, procs := range []int{1, 2, 8} {
+		prev := runtime.GOMAXPROCS(procs)
+		for _, thr := range thrs {
+			vkSetThreshold(thr)
+			for round := 0; round < rounds; round++ {
+				yields.Store(int64(1 + 4*round))
+				ids := append([]int(nil), conc[thr]...)
+				rand.New(rand.NewSource(seed*1000+int64(round*10+procs))).Shuffle(len(ids), func(i, j int) { ids[i], ids[j] = ids[j], ids[i] })
+				work := make(chan int, len(ids))
+				for _, id := range ids {
+					work <- id
+				}
+				close(work)
+				var wg sync.WaitGroup
+				for w := 0; w < workers; w++ {
+					wg.Add(1)
+					go func() {
+						defer wg.Done()
+						for id := range work {
+							resp, wire, err := fetch(id)
+							if err != nil {
+								t.Errorf("concurrent case %d: %v", id, err)
+								return
+							}
+							rec := vkProjectResponse(id, resp, wire, map[string]any{"procs": procs, "round": round})
+							mu.Lock()
+							tw.Emit(rec)
+							nconc++
+							mu.Unlock()
+						}
+					}()
+				}
+				wg.Wait()
+			}
+		}
+		runtime.GOMAXPROCS(prev)
+	}
+	yields.Store(0)
+	fmt.Printf("VERIF-C19 write sequential=%d gzip=%d concurrent=%d\n", nseq, nz, nconc)
 }
